@@ -6,14 +6,14 @@ from lxml import etree
 from harness.core import Result
 from harness import xsdgen, xmlcanon, enginea
 
-LEAN_MODULES = ["ZeepProofs.C03"]
+LEAN_MODULES = ["ZeepProofs.C03", "ZeepProofs.C01"]
 NS = "Zeep.Xsd."
-THEOREMS = [NS + t for t in ("c03_elem_roundtrip", "c03_flat_sequence_roundtrip", "c03_serialize_names")]
+THEOREMS = [NS + t for t in ("c03_elem_roundtrip", "c03_flat_sequence_roundtrip", "c03_serialize_names", "c01_nested_record_roundtrip", "c01_record_roundtrip")]
 LEVEL = "proof"
 MANIFEST = dict(
     engine="A: lean/ZeepModel/Xsd/Parse.lean (+ harness/xsdgen.py, harness/enginea.py)",
     technique="Lean 4 model of zeep's greedy deque decoder on tree-unfolded schemas; round-trip theorems (decode of the reference serialisation is the instance) for element repetitions and flat sequences by induction; differential tie on libxml2-valid documents generated independently of zeep (decoded value, strict acceptance, re-serialisation)",
-    text="For element declarations with any occurrence bounds and for flat sequences of distinctly named declarations the model's strict decoder is proved to return exactly the instance a reference serialisation came from, leaving the rest of the deque untouched. The model is tied to zeep on every run: documents generated from the section-5 grammar independently of zeep (every occurrence class, choice branches, all-permutations, optional attributes, xsi:nil, prefix / default-namespace spellings), confirmed valid by libxml2, are decoded by zeep and by the model (value equality through the documented value-object conventions, call counts), then re-serialised by zeep and compared with the document (sibling order free only inside xsd:all).",
+    text="For element declarations with any occurrence bounds, for flat sequences of distinctly named declarations and for records nested to any depth (ZeepProofs/C01.lean: sequences of single / optional / repeated leaf or record typed elements with attributes) the model's strict decoder is proved to return exactly the instance a reference serialisation came from, leaving the rest of the deque untouched. The model is tied to zeep on every run: documents generated from the section-5 grammar independently of zeep (every occurrence class, choice branches, all-permutations, optional attributes, xsi:nil, prefix / default-namespace spellings), confirmed valid by libxml2, are decoded by zeep and by the model (value equality through the documented value-object conventions, call counts), then re-serialised by zeep and compared with the document (sibling order free only inside xsd:all).",
     note="Proof coverage is partial: F-core constructs beyond flat sequences (nested repeating particles, choice, all, attributes, nested types) are modelled and tied but their round-trip theorems are not proved. Known findings K8 (empty complex element decodes to None), K14 (xsi:nil on optional / choice elements decodes to None and is lost on re-serialisation) are listed in known_findings.json.",
     design_ref="DESIGN.md sections 5 and 6, C03",
 )
